@@ -1,7 +1,7 @@
 (* One entry point for the extracted model: [run cmd args] returns the result fields.
    The OCaml driver only splits lines, (un)escapes and converts strings. *)
 From Coq Require Import List Bool NArith ZArith String Ascii.
-From PC Require Import Base.Cmp Base.Result Model.Pep440 Spec.Pep440Spec Spec.Specifier Model.VConstraint Model.Generic Model.Marker Model.Wheel Model.Select Model.PyRange.
+From PC Require Import Base.Cmp Base.Result Model.Pep440 Spec.Pep440Spec Spec.Specifier Model.VConstraint Model.Generic Model.Marker Model.Wheel Model.Select Model.PyRange Model.Meta.
 Import ListNotations.
 Open Scope string_scope.
 Open Scope N_scope.
@@ -521,6 +521,24 @@ Definition run_pyrange (cmd : string) (args : list string) : option (list string
     | _ => None end
   else None.
 
+(* ---------------- core metadata ---------------- *)
+Definition dec_opt (s : string) : option string :=
+  match s with String "S" r => Some r | _ => None end.
+Definition dec_strs (s : string) : list string := match lchars s with [] => [] | _ => tokens s end.
+Definition show_header (h : string * list string) : string :=
+  fst h ++ String (ascii_of_N 31) (sjoin (String (ascii_of_N 10) "") (snd h)).
+Definition run_meta (cmd : string) (args : list string) : option (list string) :=
+  if seq cmd "mrender" then
+    match args with
+    | [n; v; s; lic; kw; au; aue; ma; mae; rp; cls; pe; rd; pu; ct; de] =>
+      let m := mkMeta n v s (dec_opt lic) (dec_opt kw) (dec_opt au) (dec_opt aue) (dec_opt ma) (dec_opt mae) (dec_opt rp)
+                      (dec_strs cls) (dec_strs pe) (dec_strs rd) (dec_strs pu) (dec_opt ct) (dec_opt de) in
+      Some match render m with
+           | Ok t => "ok" :: t :: map show_header (fst (parse_lines (render_lines m)))
+           | Err e => ["err"; err_str e] end
+    | _ => None end
+  else None.
+
 (* reference specifier semantics (Spec/Specifier.v), validated against packaging by the harness *)
 Definition run_spec (cmd : string) (args : list string) : option (list string) :=
   if seq cmd "spcontains" then
@@ -557,7 +575,10 @@ Definition run (cmd : string) (args : list string) : list string :=
                                             | Some r => r
                                             | None => match run_select cmd args with
                                                       | Some r => r
-                                                      | None => match run_pyrange cmd args with Some r => r | None => ["unknown-command"] end
+                                                      | None => match run_pyrange cmd args with
+                                                                | Some r => r
+                                                                | None => match run_meta cmd args with Some r => r | None => ["unknown-command"] end
+                                                                end
                                                       end
                                             end
                                   end
